@@ -157,6 +157,7 @@ class ReqObs(object):
         self.result = None       # ('ok', summary) | ('err', type name, text)
         self.t_result = None
         self.epoch = 0
+        self.excs = []
 
     @staticmethod
     def summarize(rows):
@@ -178,6 +179,7 @@ class ReqObs(object):
     def on_err(self, exc):
         sim = self.w.sim
         self.calls.append((sim.nlog, round(sim.vnow(), 6), 'eb', (type(exc).__name__, str(exc)[:160]), self.epoch))
+        self.excs.append(exc)
         sim.rec('req.eb', 'rid=%s %s' % (self.rid, type(exc).__name__))
 
     def start(self, session, stmt, params=None, **kw):
